@@ -12,9 +12,9 @@ mistral/workflow/commands.py: FailWorkflow / SucceedWorkflow / PauseWorkflow / N
                                    (joins through `defer`) + register start; SetWorkflowState →
                                    `wf_handler.set_workflow_state` (= Workflow.stop / pause)
   dispatcher.dispatch_workflow_commands   the backlog is polled (popped) and processed FIRST, then the
-                                   new commands; a command restored from its dict is a plain RunTask:
-                                   `wait` / `unique_key` are not restored, so a restored join command
-                                   creates an ordinary IDLE execution (commands.restore_command_from_dict)
+                                   new commands; a RunTask command restored from its dict keeps `wait` /
+                                   `unique_key` (repo_patches/32; before, a restored join command created an
+                                   ordinary IDLE execution that started at once)
   Task.complete                    next_tasks / has_next_tasks without the engine commands,
                                    error_handled over ALL commands, completion check registered iff the
                                    task has no next TASKS
@@ -106,8 +106,8 @@ def rearrange (waiting : Cmd → Bool) (cmds : List Cmd) : List Cmd :=
 def findKeyed (w : World) (n : String) : Option TaskRow :=
   (w.tasks.filter fun r => r.name == n && r.keyed).getLast?
 
-/-- a RunTask command restored from the backlog: `wait` is not set and there is no unique key: an
-    ordinary IDLE execution, also for a join -/
+/-- an ordinary IDLE execution without unique key (only for a RunExistingTask command restored from the
+    backlog, which is rebuilt as a RunTask) -/
 def dispatchPlain (w : World) (c : Cmd) : World :=
   { w with tasks := w.tasks ++ [{ newRow w c .IDLE with keyed := false }],
            pending := w.pending ++ [Item.postStartTask (c.target, countName w c.target) true] }
@@ -140,14 +140,18 @@ def dispatchOneX (sp : Spec) (restored : Bool) (w : World) (c : Cmd) : World :=
     | .fail => { w with wf := (Lifecycle.wfApply w.wf (.stop .ERROR)).1 }
     | .succeed => { w with wf := (Lifecycle.wfApply w.wf (.stop .SUCCESS)).1 }
     | .task =>
-      if restored then dispatchPlain w c
-      else match c.existing with
-        | some t => { w with pending := w.pending ++ [.postStartTask t false] }   -- RunExistingTask
-        | none => dispatchTask sp w c
+      match c.existing with
+      | some t =>
+        -- RunExistingTask; restored from the backlog it is rebuilt as a RunTask (two `pause` commands in
+        -- one clause: corner not exercised by the tie)
+        if restored then dispatchPlain w c else { w with pending := w.pending ++ [.postStartTask t false] }
+      -- RunTask: since repo_patches/32 a command restored from the backlog keeps `wait` / `unique_key`,
+      -- so a restored join command defers like a freshly calculated one
+      | none => dispatchTask sp w c
 
 /-- `_process_commands` -/
 def processX (sp : Spec) (restored : Bool) (w : World) (cmds : List Cmd) : World :=
-  (rearrange (fun c => !restored && c.existing.isNone && (isJoin sp c.target).isSome) cmds).foldl (dispatchOneX sp restored) w
+  (rearrange (fun c => c.existing.isNone && (isJoin sp c.target).isSome) cmds).foldl (dispatchOneX sp restored) w
 
 /-- `dispatch_workflow_commands`: the backlog first (it is popped), then the new commands -/
 def dispatchX (sp : Spec) (w : World) (cmds : List Cmd) : World :=
